@@ -193,7 +193,7 @@ mod mio_source;
 // Verification drivers (only with RUSTFLAGS="--cfg rustdds_verif"); the code lives
 // outside this repository, in the verification framework.
 #[cfg(rustdds_verif)]
-#[path = "/verif/harness/inrepo/mod.rs"]
+#[path = "../../verif/harness/inrepo/mod.rs"]
 pub mod verif_hooks;
 
 // Public modules
